@@ -7,6 +7,7 @@ import (
 	"math/rand"
 
 	. "verif/ast"
+	"verif/ref/typing"
 )
 
 type Mutant struct {
@@ -280,11 +281,13 @@ var ops = []op{
 				renameFree(t.Cont, old, "qq_tmp")
 				t.Y = z
 				renameFree(t.Cont, "qq_tmp", z)
+				lastBinder = &t.Y
 			} else {
 				old := Base(t.Z)
 				renameFree(t.Cont, old, "qq_tmp")
 				t.Z = z
 				renameFree(t.Cont, "qq_tmp", z)
+				lastBinder = &t.Z
 			}
 			return fmt.Sprintf("%s binder renamed to live name %s in %s", t.Op, z, s.where)
 		case "shift", "new":
@@ -294,6 +297,9 @@ var ops = []op{
 			renameFree(t.Cont, old, "qq_tmp")
 			t.Y = z
 			renameFree(t.Cont, "qq_tmp", z)
+			if t.Ann == nil { // the grammar has no polarity on an annotated cut binder
+				lastBinder = &t.Y
+			}
 			return fmt.Sprintf("%s binder renamed to live name %s in %s", t.Op, z, s.where)
 		case "case":
 			var idx []int
@@ -310,6 +316,7 @@ var ops = []op{
 			renameFree(b.Body, old, "qq_tmp")
 			b.Var = z
 			renameFree(b.Body, "qq_tmp", z)
+			lastBinder = &b.Var
 			return fmt.Sprintf("case binder renamed to live name %s in %s", z, s.where)
 		}
 		return ""
@@ -384,18 +391,24 @@ var ops = []op{
 			old := Base(b.Var)
 			renameFree(b.Body, old, z)
 			b.Var = z
+			lastBinder = &b.Var
 		case (t.Op == "recv" || t.Op == "split") && r.Intn(2) == 0:
 			old := Base(t.Z)
 			renameFree(t.Cont, old, z)
 			t.Z = z
+			lastBinder = &t.Z
 		case t.Op == "recv" || t.Op == "split":
 			old := Base(t.Y)
 			renameFree(t.Cont, old, z)
 			t.Y = z
+			lastBinder = &t.Y
 		default:
 			old := Base(t.Y)
 			renameFree(t.Cont, old, z)
 			t.Y = z
+			if t.Ann == nil {
+				lastBinder = &t.Y
+			}
 		}
 		return fmt.Sprintf("%s binder renamed to %s whose own consumer was deleted in %s", t.Op, z, c.s.where)
 	}},
@@ -523,6 +536,49 @@ var ops = []op{
 		m := otherMode(r, s.t.Ann.M)
 		Recolor(s.t.Ann, m)
 		return fmt.Sprintf("cut annotation of %s recoloured to %s in %s", s.t.Y, m, s.where)
+	}},
+	{"mode-in-uncalled-copy", "mode", func(p *Program, r *rand.Rand, ss []site) string {
+		// a copy of a function, declared after the original and never called, whose signature
+		// (one parameter, or everything including the cut annotations of its body) is recoloured:
+		// the written types differ from the original's only in their mode annotations
+		if len(p.Funcs) == 0 {
+			return ""
+		}
+		f := p.Funcs[r.Intn(len(p.Funcs))]
+		g := &Func{Name: f.Name + "cp", Ret: f.Ret.Clone(), Body: CloneTerm(f.Body), Prov: f.Prov}
+		for _, v := range f.Params {
+			g.Params = append(g.Params, Var{N: v.N, T: v.T.Clone()})
+		}
+		Walk(g.Body, func(t *Term) {
+			if t.Op == "call" && t.Fn == f.Name {
+				t.Fn = g.Name
+			}
+		})
+		what := ""
+		if len(g.Params) > 0 && r.Intn(2) == 0 {
+			j := r.Intn(len(g.Params))
+			m := otherMode(r, g.Params[j].T.M)
+			Recolor(g.Params[j].T, m)
+			what = fmt.Sprintf("parameter %s recoloured to %s", g.Params[j].N, m)
+		} else {
+			m := otherMode(r, g.Ret.M)
+			Recolor(g.Ret, m)
+			for j := range g.Params {
+				Recolor(g.Params[j].T, m)
+			}
+			Walk(g.Body, func(t *Term) {
+				if t.Op == "new" && t.Ann != nil {
+					t.Ann = t.Ann.Clone()
+					Recolor(t.Ann, m)
+				}
+			})
+			what = fmt.Sprintf("whole signature and cut annotations recoloured to %s", m)
+		}
+		p.Funcs = append(p.Funcs, g)
+		if p.Order != nil {
+			p.Order = append(p.Order, Decl{"fun", len(p.Funcs) - 1})
+		}
+		return fmt.Sprintf("uncalled copy %s of %s: %s", g.Name, f.Name, what)
 	}},
 	{"mode-of-typedef", "mode", func(p *Program, r *rand.Rand, ss []site) string {
 		if len(p.Types) == 0 {
@@ -763,6 +819,25 @@ var ops = []op{
 		collect(t)
 		x := nodes[r.Intn(len(nodes))]
 		m := x.M
+		// re-association: (a o b) p c  <->  a o (b p c), the same sequence of operands and
+		// operators with the brackets moved
+		var rot []*Ty
+		for _, n := range nodes {
+			if (n.K == KSend || n.K == KRecv) && (n.L.K == KSend || n.L.K == KRecv || n.R.K == KSend || n.R.K == KRecv) {
+				rot = append(rot, n)
+			}
+		}
+		if len(rot) > 0 && r.Intn(3) == 0 {
+			n := rot[r.Intn(len(rot))]
+			if n.L.K == KSend || n.L.K == KRecv {
+				l := n.L
+				*n = Ty{K: l.K, M: n.M, L: l.L, R: &Ty{K: n.K, M: n.M, L: l.R, R: n.R}}
+			} else {
+				rr := n.R
+				*n = Ty{K: rr.K, M: n.M, L: &Ty{K: n.K, M: n.M, L: n.L, R: rr.L}, R: rr.R}
+			}
+			return "brackets moved inside a type annotation / signature"
+		}
 		switch {
 		case x.K == KUnit:
 			x.K, x.L, x.R = KSend, Unit(m), Unit(m)
@@ -1009,13 +1084,42 @@ func Mutate(p *Program, r *rand.Rand, families ...string) *Mutant {
 			continue
 		}
 		q := p.Clone()
+		lastBinder = nil
 		d := o.f(q, r, sites(q))
 		if d == "" {
 			continue
 		}
+		d += annotateBinder(q, r)
 		return &Mutant{P: q, Op: o.name, Family: o.family, Desc: d}
 	}
 	return nil
+}
+
+// lastBinder points at the binder a substructural operator has just renamed.
+var lastBinder *string
+
+// annotateBinder gives the renamed binder, one time in three, an explicit polarity
+// annotation that is correct for its type (the reference verdict must not change).
+func annotateBinder(q *Program, r *rand.Rand) string {
+	b := lastBinder
+	lastBinder = nil
+	if b == nil || r.Intn(3) != 0 || Pol(*b) != 0 {
+		return ""
+	}
+	base := typing.Check(q)
+	plain := *b
+	signs := []string{"+", "-"}
+	if r.Intn(2) == 0 {
+		signs = []string{"-", "+"}
+	}
+	for _, sg := range signs {
+		*b = sg + plain
+		if v := typing.Check(q); v.Kind == base.Kind && v.Reason == base.Reason {
+			return " (binder written " + *b + ")"
+		}
+	}
+	*b = plain
+	return ""
 }
 
 // OpNames lists all operators (for coverage reports).
@@ -1025,4 +1129,22 @@ func OpNames() []string {
 		out = append(out, o.name)
 	}
 	return out
+}
+
+// MutateOp applies the named operator (for inspection and for targeted workloads).
+func MutateOp(p *Program, r *rand.Rand, name string) *Mutant {
+	for _, o := range ops {
+		if o.name != name {
+			continue
+		}
+		for try := 0; try < 10; try++ {
+			q := p.Clone()
+			lastBinder = nil
+			if d := o.f(q, r, sites(q)); d != "" {
+				d += annotateBinder(q, r)
+				return &Mutant{P: q, Op: o.name, Family: o.family, Desc: d}
+			}
+		}
+	}
+	return nil
 }
